@@ -284,7 +284,19 @@ impl AnnotatedLexer<'_> {
     }
 
     fn get_any(&mut self) -> Result<Token, LexError> {
-        let item = self.lexer.next().ok_or(LexError::UnexpectedEOF)?;
+        let Some(item) = self.lexer.next() else {
+            // End of input in the middle of a statement: report it on the part
+            // of the statement read so far instead of dropping it silently
+            if self.raw_token != RawToken::default() {
+                return Err(LexError::UnexpectedError(Box::new(Token::new(
+                    TokenType::Symbol(self.raw_token.raw_text()),
+                    self.raw_token.raw_text(),
+                    self.raw_token.range(),
+                    self.raw_token.file(),
+                ))));
+            }
+            return Err(LexError::UnexpectedEOF);
+        };
         if let Ok(ref item) = item {
             if self.raw_token == RawToken::default() {
                 self.raw_token = item.clone().into();
